@@ -286,6 +286,10 @@ def run(ck, facts):
                 c = C.strip(i0["c"])
                 if c.get("k") == "let":
                     line_ids |= {x["id"] for x in C.walk(c["init"]) if x.get("k") == "local"}
+            elif i0.get("k") == "match":      # `match ok_ty { Some(ok) => format!(..), None => String::new() }`
+                line_ids |= {x["id"] for x in C.walk(i0["s"]) if x.get("k") == "local"}
+            elif i0.get("k") == "mcall" and i0.get("m") in ("map", "map_or", "map_or_else", "unwrap_or_default", "unwrap_or_else", "unwrap_or"):
+                line_ids |= {x["id"] for x in C.walk(i0["recv"]) if x.get("k") == "local" and x.get("n") in ("ok_ty", "err_ty")}
     ck.expect(cond_ids and cond_ids == line_ids, "R5", "c::gen_result_ty/union-iff-payload", "union emitted iff ok/err line emitted (same filtered values)",
               "the union of the per-method result record is emitted under a condition on different values (%s) than the payload lines (%s): zero-sized payloads get an empty union and shift is_ok" % (sorted(cond_ids), sorted(line_ids)), C.loc(g))
     lits = C.str_lits(body)
